@@ -7,11 +7,12 @@ the algebraic part of C01 and is decided by the bounded groups.)
 """
 import z3
 
-from vf.pyvc.engine import Atom, B, I, R, Opaque, Coll, Contract, NONE, Obj, OpaqueFn, Scalar, empty_set, fresh, register, set_sort
+from vf.pyvc.engine import Atom, B, I, R, Opaque, Coll, Contract, DictV, NONE, Obj, OpaqueFn, Scalar, empty_set, fresh, register, set_sort
 from vf.pyvc.lib import N_, new_graph, wf_graph
 
 from .common import atom_list
 from . import c15  # BayesianNetwork.remove_node contract
+from . import c08  # DAG.active_trail_nodes / get_ancestral_graph contracts
 
 
 class GetEliminationOrder(Contract):
@@ -132,3 +133,87 @@ class VEGetEliminationOrder(Contract):
 
 
 register(VEGetEliminationOrder())
+
+
+# --------------------------------------------------------------------------------------------------- query pruning
+class PruneBayesianModel(Contract):
+    """Inference._prune_bayesian_model (every exact query on a Bayesian network starts here), graph part:
+    D   = evidence variables + every node d-connected to a query variable given the evidence (d-connection = the relation of
+          DAG.active_trail_nodes' contract, latents included),
+    bn  = the sub-DAG induced by the ancestors-or-self, inside G[D], of the query and evidence variables,
+    the evidence is handed back unchanged, the engine's model is not modified.
+    (CPD re-attachment is opaque here; that the pruned network has the same posterior is the algebraic part, bounded.)"""
+    file = "pgmpy/inference/base.py"
+    qual = "Inference._prune_bayesian_model"
+
+    def variants(self, ex):
+        for vl in ("list", "tuple"):
+            for el in ("None", "dict"):
+                g = new_graph("BayesianNetwork", "model")
+                g.fields["__opaque__"] = {"get_cpds": OpaqueFn("get_cpds", Opaque, pure=True)}
+                this = Obj("Inference", {"model": g})
+                ev = NONE if el == "None" else DictV(Atom, "scalar", z3.Const("ev_dom", set_sort(Atom)), z3.Const("ev_val", z3.ArraySort(Atom, Atom)), vsort=Atom)
+                yield f"variables={vl},evidence={el}", {"self": this, "variables": atom_list("qvars", vl), "evidence": ev}, {}
+
+    @staticmethod
+    def Z(args):
+        e = args["evidence"]
+        return e.dom if isinstance(e, DictV) and e.dom is not None else empty_set(Atom)
+
+    def Q(self, args, old):
+        """query variables: the given ones, all nodes when none are given"""
+        from vf.pyvc.engine import nonempty
+        q = args["variables"].mem
+        x = fresh("x", Atom)
+        return z3.Lambda([x], z3.If(nonempty(q, Atom), q[x], old["@nodes"][x]))
+
+    def pre(self, ex, st, args):
+        g = args["self"].fields["model"]
+        x = fresh("x", Atom)
+        # weakest precondition found by the proof: with no query variable *and* an empty model `set.union(*[])` raises TypeError
+        return z3.And(wf_graph(g), z3.ForAll([x], z3.Implies(args["variables"].mem[x], N_(g, x))),
+                      z3.ForAll([x], z3.Implies(self.Z(args)[x], N_(g, x))),
+                      z3.Or(z3.Exists([x], args["variables"].mem[x]), z3.Exists([x], N_(g, x))))
+
+    def snapshot(self, ex, st, args):
+        from .common import graph_snapshot
+        return graph_snapshot(args["self"].fields["model"])
+
+    def post(self, ex, st, args, old, result):
+        from vf.pyvc.engine import TupleV
+        from vf.pyvc.lib import RelSort
+        from .common import graph_unchanged
+        from . import c08
+        if not (isinstance(result, TupleV) and len(result.items) == 2 and isinstance(result.items[0], Obj)):
+            return z3.BoolVal(False)
+        bn, ev2 = result.items
+        E, Z, Q = old["@E"], self.Z(args), self.Q(args, old)
+        atn = c08.REGISTRY_ATN
+        th = atn.theory(ex, {"observed": Coll("list", Atom, Z)}, E)
+        s, n, a, b, t = (fresh(k, Atom) for k in "snabt")
+        D = z3.Lambda([n], z3.Or(Z[n], z3.Exists([s], z3.And(Q[s], z3.Not(Z[n]), z3.Or(th.R(s, n, c08.UP), th.R(s, n, c08.DOWN))))))
+        Esub = fresh("Esub", RelSort)   # ghost: the edge relation of G[D]
+        ex.axioms.append(z3.ForAll([a, b], Esub[a, b] == z3.And(E[a, b], D[a], D[b])))
+        pth = ex.lib.theory(ex)
+        pth.watch_rel(Esub)
+        P = pth.path(Esub)
+        keep = z3.Lambda([n], z3.And(D[n], old["@nodes"][n], z3.Exists([t], z3.And(z3.Or(Q[t], Z[t]), D[t], P(n, t)))))
+        out = {"nodes": z3.ForAll([n], bn.fields["@nodes"][n] == keep[n]),
+               "edges": z3.ForAll([a, b], bn.fields["@E"][a, b] == z3.And(E[a, b], keep[a], keep[b])),
+               "model-untouched": graph_unchanged(args["self"].fields["model"], old)}
+        if isinstance(args["evidence"], DictV):
+            if not isinstance(ev2, DictV) or ev2.dom is None:
+                return z3.BoolVal(False)
+            out["evidence-kept"] = z3.ForAll([n], z3.And(ev2.dom[n] == Z[n], z3.Implies(Z[n], ev2.val[n] == args["evidence"].val[n])))
+        return out
+
+
+    # loop 0: for var in bn.nodes()  - re-attaches CPDs (opaque objects); no graph is written
+    def inv0(self, ex, st, args, old, ghost):
+        from .common import graph_unchanged
+        return graph_unchanged(args["self"].fields["model"], old)
+
+
+
+PruneBayesianModel.invariants = property(lambda self: {0: self.inv0})
+register(PruneBayesianModel())
